@@ -148,6 +148,60 @@ Theorem C10_gene_function_colon_refuted :
 Proof. exact gfa_colon_refuted. Qed.
 Print Assumptions C10_gene_function_colon_refuted.
 
+(* ---- generic features on the read path, order of CDS features ---- *)
+
+(* location_bridges_origin(location, allow_reversing=False), the test in Record.from_biopython's misc_feature
+   prefilter, is a pure test: it answers what Common/Loc.v's bridges answers and leaves the location as it was *)
+Theorem C10_bridges_test_is_pure : forall l, bridges_origin false l = (bridges l, l).
+Proof. exact bridges_origin_plain. Qed.
+Print Assumptions C10_bridges_test_is_pure.
+
+(* "the test never changes the location" is false for allow_reversing=True: complement(join(551..600,1..40)) on a
+   record of 600 (a reverse-strand feature over the origin as NCBI writes it) bridges the origin, and the call with
+   allow_reversing leaves it with its exons in the other order, answering False - afterwards it no longer crosses the
+   origin.  This is why the prefilter must pass False. *)
+Theorem C10_bridges_reversing_keeps_location_refuted :
+  bridges_origin false W_ncbi_rev = (true, W_ncbi_rev) /\
+  bridges_origin true W_ncbi_rev = (false, rev W_ncbi_rev) /\ rev W_ncbi_rev <> W_ncbi_rev /\
+  bridges (rev W_ncbi_rev) = false.
+Proof. exact bridges_origin_reversing_witness. Qed.
+Print Assumptions C10_bridges_reversing_keeps_location_refuted.
+
+(* Record.from_biopython (taxon bacteria) on a feature of any type - misc_feature (prefilter: bridges and
+   remove_redundant_exons), any other generic type, gene (add_gene's exon-order test on linear records) - on a linear or
+   circular record of any length: a location that a record can hold and write (no exon inside another exon; for a gene on
+   a linear record exons in strand order) is either refused or comes back exactly as it was: same parts, same order,
+   same strands, hence the same crosses_origin *)
+Theorem C10_read_keeps_location : forall n circular ty l l',
+  writable circular ty l = true -> read_feature_loc n circular ty l = Ok l' -> l' = l.
+Proof. exact read_keeps_location. Qed.
+Print Assumptions C10_read_keeps_location.
+
+(* CDS features whose (start, length) sort keys strictly increase are re-added by add_cds_feature (bisect_left with
+   Feature.__lt__) in exactly the stored order: the CDS part of "the re-read record writes the same file" *)
+Theorem C10_cds_order_kept : forall locs keys, mapM feature_key locs = Ok keys ->
+  strictly_sorted C04.Model.pair_lt keys = true -> cds_reload locs = Ok locs.
+Proof. exact cds_order_kept. Qed.
+Print Assumptions C10_cds_order_kept.
+
+(* alternative transcripts: two locations that do not cross the origin, with the same start (and possibly the same
+   end) and different total exon length, have different sort keys - exactly one is less than the other *)
+Theorem C10_alt_transcripts_ordered : forall a b, bridges a = false -> bridges b = false ->
+  lstart a = lstart b -> llen a <> llen b ->
+  exists ka kb, feature_key a = Ok ka /\ feature_key b = Ok kb /\
+                (C04.Model.pair_lt ka kb = true /\ C04.Model.pair_lt kb ka = false \/
+                 C04.Model.pair_lt kb ka = true /\ C04.Model.pair_lt ka kb = false).
+Proof. exact alt_transcripts_ordered. Qed.
+Print Assumptions C10_alt_transcripts_ordered.
+
+(* without "strictly": two CDS features with equal keys (same start, same total length; here [10:40](+) and
+   [10:40](-)) are stored in reverse order of arrival, so the stored order flips on every reload (known finding
+   equal_key_genes_order) *)
+Theorem C10_cds_order_equal_keys_refuted :
+  exists a b, feature_key a = feature_key b /\ cds_reload [a; b] = Ok [b; a] /\ cds_reload [b; a] = Ok [a; b] /\ a <> b.
+Proof. exact cds_equal_keys_refuted. Qed.
+Print Assumptions C10_cds_order_equal_keys_refuted.
+
 (* ---- non-vacuity ---- *)
 Example C10_ex_loc_codec :
   let t := TCompound join_text [mkTpart (mkTpos 1 994) (mkTpos 0 1000) 1; mkTpart (mkTpos 0 0) (mkTpos 2 357) 1] in
@@ -176,3 +230,22 @@ Proof. repeat split; reflexivity. Qed.
 Example C10_ex_gene_function :
   wf_gfa (mkGfa 1 [115; 109; 99; 111; 103; 115] (Some [84; 49; 80; 75; 83]) [97; 58; 32; 98]) = true.
 Proof. reflexivity. Qed.
+
+(* the NCBI-style reverse-strand misc_feature over the origin satisfies the hypotheses of C10_read_keeps_location and is
+   read back unchanged; an exon inside another exon is what falls outside (it is removed on reading) *)
+Example C10_ex_read_ncbi :
+  writable true T_misc W_ncbi_rev = true /\ read_feature_loc 600 true T_misc W_ncbi_rev = Ok W_ncbi_rev /\
+  bridges W_ncbi_rev = true.
+Proof. exact read_ncbi_witness. Qed.
+
+Example C10_ex_read_nested_exon :
+  read_feature_loc 600 true T_misc [mkPart 550 600 1; mkPart 0 40 1; mkPart 10 20 1] = Ok [mkPart 550 600 1; mkPart 0 40 1] /\
+  writable true T_misc [mkPart 550 600 1; mkPart 0 40 1; mkPart 10 20 1] = false.
+Proof. exact read_removes_nested_exon. Qed.
+
+(* join(301..360,501..560,701..760) and join(301..360,701..760): same start, same end, different exons - the hypotheses
+   of C10_alt_transcripts_ordered hold, and in either arrival order the stored list is [shorter; longer] *)
+Example C10_ex_alt_transcripts :
+  cds_reload [W_t1; W_t2] = Ok [W_t2; W_t1] /\ cds_reload [W_t2; W_t1] = Ok [W_t2; W_t1] /\
+  lstart W_t1 = lstart W_t2 /\ lend W_t1 = lend W_t2.
+Proof. exact alt_transcripts_witness. Qed.
